@@ -53,16 +53,19 @@ def gen_static(rng):
     case = {"part": "static", "ops": ops}
     if rng.random() < 0.3:
         case["mem_limit"] = rng.choice([0, 0, 8, 16])   # the static payload may live in a spill file
+    if rng.random() < 0.35:
+        case["conv"] = rng.choice(["km-m", "m-mm"])     # both inputs convert the units of the publication (x1000)
     return case
 
 
 def run_static(case):
-    out = fm.Output(name="out", static=True, info=fm.Info(time=None, grid=fm.NoGrid(), units=""))
+    ou, iu = (case["conv"].split("-") if case.get("conv") else ("", ""))
+    out = fm.Output(name="out", static=True, info=fm.Info(time=None, grid=fm.NoGrid(), units=ou))
     if case.get("mem_limit") is not None:
         out.memory_limit = case["mem_limit"]
         out.memory_location = _scratch()
-    sin = fm.Input(name="sin", static=True, info=fm.Info(time=None, grid=fm.NoGrid(), units=""))
-    nin = fm.Input(name="nin", static=False, info=fm.Info(time=None, grid=fm.NoGrid(), units=""))
+    sin = fm.Input(name="sin", static=True, info=fm.Info(time=None, grid=fm.NoGrid(), units=iu))
+    nin = fm.Input(name="nin", static=False, info=fm.Info(time=None, grid=fm.NoGrid(), units=iu))
     out >> sin
     out >> nin
     sin.ping()
@@ -98,6 +101,10 @@ def run_static(case):
     return res
 
 
+def static_factor(case):
+    return 1000 if case.get("conv") else 1
+
+
 def oracle_static(case, impl):
     first = None
     fetched = impl[-1]["static_input_fetches"]
@@ -118,8 +125,8 @@ def oracle_static(case, impl):
             if first is None:
                 if r.get("err") != "FinamNoDataError":
                     return ("nothing is served before the publication (no-data error)", {"op": [op, arg], "got": r})
-            elif r.get("ok") != first:
-                return ("the one publication is served unchanged for every request time, including none",
+            elif r.get("ok") != first * static_factor(case):
+                return ("the one publication is served unchanged (in the input's units) for every request time, including none",
                         {"op": [op, arg], "got": r, "published": first})
     return None
 
@@ -389,7 +396,8 @@ def run(ctx, res):
         res.case(c, sum(1 for o, _ in c["ops"] if o == "push") >= 2 and any(r.get("ok") is not None for r in impl[:-1]))
         res.count("part", "static")
         for a, b in zip(impl[:-1], m["results"]):
-            if ("err" in a) != ("err" in b) or a.get("err") != b.get("err") or a.get("ok") != b.get("ok"):
+            mok = b.get("ok") * static_factor(c) if b.get("ok") is not None else None   # the model serves the publication itself
+            if ("err" in a) != ("err" in b) or a.get("err") != b.get("err") or a.get("ok") != mok:
                 res.diverge("static/push-pull", c, {"impl": impl, "model": m["results"]}, None)
                 break
         o = oracle_static(c, impl)
